@@ -100,6 +100,8 @@ enum Ty {
     FbCtu,
     FbTrig,
     FbIo,
+    FbNest,
+    ClassDer,
 }
 
 const VALUE_TYPES: &[Ty] = &[
@@ -137,13 +139,26 @@ const VALUE_TYPES: &[Ty] = &[
     Ty::Struct,
 ];
 
-const FB_TYPES: &[Ty] = &[Ty::FbAcc, Ty::FbTon, Ty::FbCtu, Ty::FbTrig];
+const FB_TYPES: &[Ty] = &[
+    Ty::FbAcc,
+    Ty::FbTon,
+    Ty::FbCtu,
+    Ty::FbTrig,
+    Ty::FbNest,
+    Ty::ClassDer,
+];
 
 impl Ty {
     fn is_fb(self) -> bool {
         matches!(
             self,
-            Ty::FbAcc | Ty::FbTon | Ty::FbCtu | Ty::FbTrig | Ty::FbIo
+            Ty::FbAcc
+                | Ty::FbTon
+                | Ty::FbCtu
+                | Ty::FbTrig
+                | Ty::FbIo
+                | Ty::FbNest
+                | Ty::ClassDer
         )
     }
     fn class(self) -> &'static str {
@@ -160,6 +175,7 @@ impl Ty {
             Ty::Enum => "enum",
             Ty::ArrInt | Ty::Arr2D | Ty::ArrStruct => "array",
             Ty::Struct => "struct",
+            Ty::ClassDer => "class",
             _ => "fb",
         }
     }
@@ -202,6 +218,8 @@ impl Ty {
             Ty::FbCtu => "CTU",
             Ty::FbTrig => "R_TRIG",
             Ty::FbIo => "IoFb",
+            Ty::FbNest => "Nest",
+            Ty::ClassDer => "CDer",
         }
     }
     /// (literal A, literal B) used for initial values and toggles; None = no initialiser.
@@ -281,6 +299,30 @@ n := n + DINT#1;
 last := inc;
 IF total < INT#20000 THEN total := total + inc; ELSE total := INT#0; END_IF;
 END_FUNCTION_BLOCK
+
+FUNCTION_BLOCK Nest
+VAR_INPUT amt : INT; go : BOOL; END_VAR
+VAR_OUTPUT cnt : DINT; END_VAR
+VAR inner : Acc; tm : TON; END_VAR
+inner(inc := amt);
+tm(IN := go, PT := T#30ms);
+cnt := cnt + DINT#1;
+END_FUNCTION_BLOCK
+
+CLASS CBase
+VAR PUBLIC
+    bv : INT := INT#1;
+END_VAR
+END_CLASS
+
+CLASS CDer EXTENDS CBase
+VAR PUBLIC
+    cv : DINT := DINT#2;
+END_VAR
+METHOD PUBLIC Bump
+IF cv < DINT#100000 THEN cv := cv + DINT#3; ELSE cv := DINT#0; END_IF;
+END_METHOD
+END_CLASS
 
 FUNCTION_BLOCK IoFb
 VAR_INPUT en : BOOL; END_VAR
@@ -387,6 +429,10 @@ fn update(ty: Ty, v: &str, gate: &str, r: &mut Reader<'_>, int_src: Option<&str>
         Ty::FbCtu => format!("{v}(CU := {gate}, R := FALSE, PV := INT#{step});"),
         Ty::FbTrig => format!("{v}(CLK := {gate});"),
         Ty::FbIo => format!("{v}(en := {gate});"),
+        Ty::FbNest => format!("{v}(amt := INT#{step}, go := {gate});"),
+        Ty::ClassDer => format!(
+            "IF {v}.bv < INT#1000 THEN {v}.bv := {v}.bv + INT#{step}; ELSE {v}.bv := INT#0; END_IF; {v}.Bump();"
+        ),
     }
 }
 
@@ -671,6 +717,7 @@ fn build(tape: &Tape, open: Open, force_power: bool) -> Scenario {
 
     // ---- global value variables (updated by one of the programs)
     let mut retained: Vec<String> = Vec::new();
+    let mut global_retained_instance = false;
     let n_glob = r.pick(6);
     let mut global_updates: Vec<(usize, String, Ty)> = Vec::new(); // (program, var, ty)
     for gi in 0..n_glob {
@@ -681,10 +728,18 @@ fn build(tape: &Tape, open: Open, force_power: bool) -> Scenario {
         };
         let mut qual = pick_qual(&mut r);
         if ty.is_fb() && qual.keeps() {
-            if open.retain_fb {
-                excluded.push(K_RETAIN_FB.to_string());
+            if force_power {
+                // the history will contain a power cycle, which a retained global instance
+                // does not survive (open finding): not declared retaining here
+                if open.retain_fb {
+                    excluded.push(K_RETAIN_FB.to_string());
+                }
+                qual = Qual::None;
+            } else {
+                // global level: kept as a whole by a warm restart, reset by a cold restart
+                global_retained_instance = true;
+                labels.insert("decl=global_retained_instance".into());
             }
-            qual = Qual::None;
         }
         let name = format!("g_{gi}");
         let lits = ty.lits();
@@ -882,10 +937,21 @@ fn build(tape: &Tape, open: Open, force_power: bool) -> Scenario {
         let place = r.pick(n_progs + 1);
         let k = if place == 0 { r.pick(n_progs) } else { place - 1 };
         let name = if place == 0 { "g_iofb".to_string() } else { format!("p{k}_iofb") };
+        let global_qual = match r.pick(3) {
+            0 => Qual::None,
+            1 => Qual::Retain,
+            _ => Qual::Persistent,
+        };
         let var = Var {
             name: name.clone(),
             ty: Ty::FbIo,
-            qual: if progs[k].inst_qual == Qual::Retain && place != 0 {
+            qual: if place == 0 {
+                if force_power {
+                    Qual::None
+                } else {
+                    global_qual
+                }
+            } else if progs[k].inst_qual == Qual::Retain {
                 Qual::NonRetain
             } else {
                 Qual::None
@@ -893,6 +959,11 @@ fn build(tape: &Tape, open: Open, force_power: bool) -> Scenario {
             init: None,
             at: None,
         };
+        if place == 0 && var.qual.keeps() {
+            retained.push("g:g_iofb".to_string());
+            global_retained_instance = true;
+            labels.insert("decl=global_retained_instance".into());
+        }
         let gate = progs[k].gates[r.pick(progs[k].gates.len())].clone();
         progs[k].stmts.push(format!("{name}(en := {gate});"));
         if place == 0 {
@@ -957,7 +1028,10 @@ fn build(tape: &Tape, open: Open, force_power: bool) -> Scenario {
         let from_global = r.chance(1, 3);
         let prefix_res = use_resource && r.flag();
         let (path, ty_text) = if from_global {
-            let cands: Vec<&Var> = globals.iter().filter(|v| !v.ty.is_fb()).collect();
+            let cands: Vec<&Var> = globals
+                .iter()
+                .filter(|v| !matches!(v.ty, Ty::FbTon | Ty::FbCtu | Ty::FbTrig | Ty::FbIo))
+                .collect();
             if cands.is_empty() {
                 continue;
             }
@@ -1114,7 +1188,16 @@ fn build(tape: &Tape, open: Open, force_power: bool) -> Scenario {
             }
             2 => Op::Restart { cold: true },
             3 => Op::Restart { cold: false },
-            4 => Op::PowerCycle,
+            4 => {
+                if global_retained_instance && open.retain_fb {
+                    // a retained global FB/class instance does not survive a power cycle
+                    // (open finding): no power cycle in such a history
+                    excluded.push(K_RETAIN_FB.to_string());
+                    Op::Restart { cold: false }
+                } else {
+                    Op::PowerCycle
+                }
+            }
             5 => Op::Fault,
             6 => {
                 let cold = r.flag();
@@ -1139,6 +1222,7 @@ fn build(tape: &Tape, open: Open, force_power: bool) -> Scenario {
             match kind {
                 0 => Op::Restart { cold: true },
                 1 => Op::Restart { cold: false },
+                _ if global_retained_instance && open.retain_fb => Op::Restart { cold: false },
                 _ => Op::PowerCycle,
             },
         );
@@ -1204,6 +1288,8 @@ fn access_path(v: &Var, inst: Option<&str>, r: &mut Reader<'_>) -> (String, Stri
             (format!("{base}[{i}]"), "S1".into())
         }
         Ty::FbAcc => (format!("{base}.total"), "INT".into()),
+        Ty::FbNest => (format!("{base}.cnt"), "DINT".into()),
+        Ty::ClassDer => (format!("{base}.cv"), "DINT".into()),
         other => (base, other.text().to_string()),
     }
 }
